@@ -36,7 +36,7 @@ def _apply_diff(root: str, diff_text: str, reverse=False) -> dict[str, str] | No
             if os.path.exists(src):
                 with open(src, "rb") as a, open(dst, "wb") as b:
                     b.write(a.read())
-        cmd = ["patch", "-p1", "-s", "--no-backup-if-mismatch"] + (["-R"] if reverse else [])
+        cmd = ["patch", "-p1", "-s", "--no-backup-if-mismatch", "-F3", "-l"] + (["-R"] if reverse else [])
         p = subprocess.run(cmd, cwd=tmp, input=diff_text, text=True, stdout=subprocess.PIPE, stderr=subprocess.STDOUT)
         if p.returncode != 0:
             return None
@@ -45,6 +45,67 @@ def _apply_diff(root: str, diff_text: str, reverse=False) -> dict[str, str] | No
             with open(os.path.join(tmp, rel), encoding="utf-8") as fh:
                 out[rel] = fh.read()
         return out
+
+
+def _apply_diff_3way(root: str, diff_text: str) -> dict[str, str] | None:
+    """A patch written for an older /repo (a seed filed before later fix: commits touched the same file): rebuild its base from the blob
+    id on the `index` line, apply it there, and merge the result into the current file with `git merge-file` (no conflict allowed)."""
+    import re
+
+    out = {}
+    parts = re.split(r"(?m)^diff --git ", diff_text)
+    for part in parts[1:]:
+        part = "diff --git " + part
+        m = re.search(r"(?m)^\+\+\+ b/(.+)$", part)
+        mi = re.search(r"(?m)^index ([0-9a-f]+)\.\.([0-9a-f]+)", part)
+        if not m or not mi:
+            return None
+        rel = m.group(1).strip()
+        if not rel.endswith(".py"):
+            continue
+        base = subprocess.run(["git", "-C", root, "cat-file", "-p", mi.group(1)], stdout=subprocess.PIPE)
+        if base.returncode != 0:
+            return None
+        with tempfile.TemporaryDirectory(prefix="sa-3way-") as tmp:
+            bp = os.path.join(tmp, "base", rel)
+            os.makedirs(os.path.dirname(bp), exist_ok=True)
+            open(bp, "wb").write(base.stdout)
+            tp = os.path.join(tmp, "theirs", rel)
+            os.makedirs(os.path.dirname(tp), exist_ok=True)
+            open(tp, "wb").write(base.stdout)
+            pr = subprocess.run(["patch", "-p1", "-s", "--no-backup-if-mismatch"], cwd=os.path.join(tmp, "theirs"), input=part, text=True, stdout=subprocess.PIPE, stderr=subprocess.STDOUT)
+            if pr.returncode != 0:
+                return None
+            cur = os.path.join(root, rel)
+            mg = subprocess.run(["git", "merge-file", "-p", cur, bp, tp], stdout=subprocess.PIPE, stderr=subprocess.PIPE)
+            if mg.returncode != 0:  # >0: conflicts, <0: error
+                return None
+            out[rel] = mg.stdout.decode("utf-8")
+    return out or None
+
+
+def _revert_3way(root: str, old_rev: str, new_rev: str) -> dict[str, str] | None:
+    """Undo the change old_rev..new_rev on top of the current files by a three-way merge (later commits touched the same files)."""
+    names = subprocess.run(["git", "-C", root, "diff", "--name-only", old_rev, new_rev], stdout=subprocess.PIPE, text=True)
+    if names.returncode != 0:
+        return None
+    out = {}
+    for rel in names.stdout.split():
+        if not rel.endswith(".py"):
+            continue
+        pre = subprocess.run(["git", "-C", root, "show", f"{old_rev}:{rel}"], stdout=subprocess.PIPE)
+        post = subprocess.run(["git", "-C", root, "show", f"{new_rev}:{rel}"], stdout=subprocess.PIPE)
+        if pre.returncode or post.returncode:
+            return None
+        with tempfile.TemporaryDirectory(prefix="sa-3way-") as tmp:
+            a, b = os.path.join(tmp, "pre.py"), os.path.join(tmp, "post.py")
+            open(a, "wb").write(pre.stdout)
+            open(b, "wb").write(post.stdout)
+            mg = subprocess.run(["git", "merge-file", "-p", os.path.join(root, rel), b, a], stdout=subprocess.PIPE, stderr=subprocess.PIPE)
+            if mg.returncode != 0:
+                return None
+            out[rel] = mg.stdout.decode("utf-8")
+    return out or None
 
 
 def load_cases(root: str, prop: str | None = None):
@@ -85,7 +146,7 @@ def load_cases(root: str, prop: str | None = None):
 
 def overlay_for(root: str, case) -> dict[str, str] | None:
     if "diff" in case:
-        return _apply_diff(root, case["diff"], reverse=case.get("reverse", False))
+        return _apply_diff(root, case["diff"], reverse=case.get("reverse", False)) or (None if case.get("reverse") else _apply_diff_3way(root, case["diff"]))
     if "gen" in case:
         import glob
         from selftest.gen import transform as _T
@@ -100,12 +161,12 @@ def overlay_for(root: str, case) -> dict[str, str] | None:
         p = subprocess.run(["git", "-C", root, "diff", case["range"][0], case["range"][1]], stdout=subprocess.PIPE, text=True)
         if p.returncode != 0 or not p.stdout.strip():
             return None
-        return _apply_diff(root, p.stdout, reverse=True)
+        return _apply_diff(root, p.stdout, reverse=True) or _revert_3way(root, case["range"][0], case["range"][1])
     if "commit" in case:
         p = subprocess.run(["git", "-C", root, "show", "--format=", case["commit"]], stdout=subprocess.PIPE, text=True)
         if p.returncode != 0:
             return None
-        return _apply_diff(root, p.stdout, reverse=True)
+        return _apply_diff(root, p.stdout, reverse=True) or _revert_3way(root, case["commit"] + "^", case["commit"])
     ov = {}
     edits = case.get("edits") or [{"file": case["file"], "old": case["old"], "new": case["new"], "count": case.get("count", 1)}]
     for e in edits:
